@@ -1,10 +1,10 @@
 SPECIFICATION MSpec
 CONSTANTS
-  KSet = {"spin", "once", "abool", "done", "barrier", "ref", "managed"}
+  KSet = {"spin", "once", "abool", "adur", "afloat", "done", "barrier", "ref", "managed"}
   Procs = {1, 2}
   MaxOps = 4
   OneAtATime = FALSE
   Emit = FALSE
-INVARIANTS ATypeOK MutualExclusion OneWinner CleanOnce RefCount OnePerBreakage DoneSticks
+INVARIANTS ATypeOK MutualExclusion OneWinner CleanOnce RefCount OnePerBreakage NoLostAdd DoneSticks
 VIEW View
 CHECK_DEADLOCK FALSE
